@@ -219,6 +219,106 @@ func (w *world) scenarioPackedFile(sto string) {
 	w.r.Distinct("packed-file/" + sto)
 }
 
+// blobs around schema.MaxSchemaBlobSize (1 MiB: what cond's schema sniffing reads before it gives up) and
+// up to the 16 MiB cap, plain and schema-looking, through every upload path, on roots that route writes
+// through the index (cond, replica) and on the storage itself; then every read path.  Contents are
+// generated (`r<seed>:<len>` / `s<seed>:<len>`), so the op lines stay short.
+func (w *world) scenarioBigBlobs() {
+	const MiB = 1 << 20
+	type conf struct {
+		sto, idx, root string
+		sizes          []int
+	}
+	full := []int{MiB - 1, MiB, MiB + 1, MiB + 2, 2 * MiB}
+	edge := []int{MiB + 1, MiB + 2}
+	var confs []conf
+	if w.r.Thorough() {
+		for _, sto := range storageKinds {
+			for _, idx := range indexKinds {
+				confs = append(confs, conf{sto, idx, "cond", full}, conf{sto, idx, "replica", edge})
+			}
+			confs = append(confs, conf{sto, "mem", "bs", edge})
+		}
+		capSizes := []int{16*MiB - 1, 16 * MiB}
+		confs = append(confs, conf{"mem", "mem", "cond", capSizes}, conf{"disk", "leveldb", "cond", capSizes},
+			conf{"blobpacked", "sqlite", "replica", capSizes}, conf{"diskpacked", "kv", "bs", capSizes})
+	} else {
+		confs = []conf{{"mem", "mem", "cond", full}, {"disk", "leveldb", "replica", full}, {"diskpacked", "kv", "cond", edge},
+			{"blobpacked", "sqlite", "cond", edge}, {"blobpacked", "mem", "replica", edge}, {"disk", "kv", "cond", edge},
+			{"mem", "sqlite", "bs", edge}}
+	}
+	method := w.r.R.Intn(5)
+	for _, c := range confs {
+		if !w.begin(fmt.Sprintf("big blobs %s/%s/%s", c.sto, c.idx, c.root), c.sto, c.idx, c.root) {
+			continue
+		}
+		small := w.tiny(7)
+		w.pool = append(w.pool, small)
+		for _, n := range c.sizes {
+			for _, schemaLooking := range []bool{false, true} {
+				kind := "sha224"
+				if w.r.R.Chance(20) {
+					kind = "sha1"
+				}
+				it := genItem(schemaLooking, uint64(w.r.R.Intn(1<<20)), n, kind)
+				w.pool = append(w.pool, it)
+				method++
+				switch method % 5 {
+				case 0:
+					w.doPut(it.ref, hb(it.content), it.content, false)
+				case 1:
+					w.doPut(it.ref, hb(it.content), it.content, true)
+				case 2:
+					// the big part first: a part after it must still be received
+					w.doMultipart([]mpart{{it.ref, it.content}, {small.ref, small.content}}, []string{hb(it.content), hb(small.content)})
+				case 3:
+					w.doClientUpload(it, it.content, false)
+				default:
+					w.doClientUpload(it, it.content, true) // what Client.ReceiveBlob does: SkipStat
+				}
+				w.r.Hit(fmt.Sprintf("mech:big-blob:%s:%s", c.root, sizeClass(n)))
+				w.doStat("post", "1", "", []string{it.ref})
+				w.doGet(it.ref, false)
+				w.doGet(it.ref, true)
+				w.doRange(it.ref)
+				if w.r.R.Chance(50) {
+					w.doFetch(it.ref)
+				}
+			}
+		}
+		w.doEnum("", "", "")
+		w.doClientEnum("3", "", 0, 0)
+		var all []string
+		for _, it := range w.pool {
+			all = append(all, it.ref)
+		}
+		w.doStat("post", "1", "", all)
+		w.doClientStat(all)
+		w.r.Distinct(fmt.Sprintf("big-blobs/%s/%s/%s", c.sto, c.idx, c.root))
+	}
+	// the generated contents are not needed any more
+	for k := range genReg {
+		delete(genReg, k)
+	}
+}
+
+func sizeClass(n int) string {
+	const MiB = 1 << 20
+	switch {
+	case n < MiB:
+		return "<1MiB"
+	case n == MiB:
+		return "=1MiB"
+	case n == MiB+1:
+		return "1MiB+1"
+	case n == MiB+2:
+		return "1MiB+2"
+	case n >= 16*MiB-1:
+		return "cap"
+	}
+	return ">1MiB"
+}
+
 func (w *world) scenarioMalformed() {
 	w.newCase("malformed op stream")
 	w.kinds = map[string]bool{}
